@@ -11,6 +11,9 @@
 //   sl_state <d>                  state by ELEMENT NAME: time=.. <joint>.qpos=a,b <joint>.qvel=.. <joint>.qpos0=..
 //                                 <act>.ctrl=.. <act>.act=.. <body>.mpos=.. <body>.mquat=..   (one line)
 //   sl_other <d>                  non-state inputs mj_recompile does not promise to keep (informational)
+//   sl_vfs <name> <hex bytes>     file served to the compiler from a VFS (compile / recompile below always pass that VFS)
+//   sl_cache <off|on|clear>       global asset cache: capacity 0 / default capacity / mj_clearCache      -> ok
+//   compile <m> <s>, recompile <s> <m> <d>     as in mjdrv_common.h but with the VFS
 #include <string.h>
 #include "mjdrv_common.h"
 
@@ -26,9 +29,40 @@ static void pvals(const char* el, const char* what, const mjtNum* p, int n) {
   for (int k = 0; k < n; k++) { if (k) printf(","); drv_print_num(p[k]); }
 }
 
+static mjVFS g_vfs; static bool g_vfs_init = false;
+static size_t g_cache_cap = 0; static bool g_cache_cap_known = false;
+static mjVFS* vfs() { if (!g_vfs_init) { mj_defaultVFS(&g_vfs); g_vfs_init = true; } return &g_vfs; }
+static void cache_set(const std::string& how) {
+  mjCache* c = mj_getCache();
+  if (!g_cache_cap_known) { g_cache_cap = mj_getCacheCapacity(c); g_cache_cap_known = true; }
+  if (how == "off") mj_setCacheCapacity(c, 0);
+  else if (how == "on") mj_setCacheCapacity(c, g_cache_cap);
+  else if (how == "clear") mj_clearCache(c);
+  else mk_die("sl_cache: off | on | clear");
+}
+
 static bool extra(const std::vector<std::string>& t, const std::vector<std::string>& lines, size_t& i) {
   const std::string& op = t[0];
   auto I = [&](size_t k) { if (k >= t.size()) mk_die("missing argument for " + op); return atoi(t[k].c_str()); };
+  if (op == "sl_vfs") {
+    std::string nm = t.at(1), b = unhex(t.at(2));
+    mj_deleteFileVFS(vfs(), nm.c_str());
+    int r = mj_addBufferVFS(vfs(), nm.c_str(), b.data(), (int)b.size());
+    if (r) printf("error addBufferVFS %d\n", r); else printf("ok\n");
+    return true;
+  }
+  if (op == "sl_cache") { cache_set(t.at(1)); printf("ok\n"); return true; }
+  if (op == "compile") {
+    int ms = I(1), ss = I(2); drv_free_model(ms); mjModel* m = nullptr;
+    if (HX_TRY) { m = mj_compile(g_spec.at(ss), vfs()); HX_END; } else { drv_err(hx_err); return true; }
+    if (!m) { drv_err(mjs_getError(g_spec.at(ss))); return true; }
+    g_model[ms] = m; printf("ok\n"); return true;
+  }
+  if (op == "recompile") {
+    int ss = I(1), ms = I(2), ds = I(3); int r = -99;
+    if (HX_TRY) { r = mj_recompile(g_spec.at(ss), vfs(), M(ms), D(ds)); HX_END; } else { drv_err(hx_err); return true; }
+    printf("%d\n", r); return true;
+  }
   if (op == "sl_reset") {
     for (auto& kv : g_data) mj_deleteData(kv.second);
     g_data.clear(); g_data_model.clear();
@@ -36,6 +70,7 @@ static bool extra(const std::vector<std::string>& t, const std::vector<std::stri
     g_model.clear();
     for (auto& kv : g_spec) mj_deleteSpec(kv.second);
     g_spec.clear();
+    cache_set("on"); cache_set("clear");      // every behaviour starts with an enabled, empty asset cache
     printf("ok\n"); return true;
   }
   if (op == "sl_copyspec") {
